@@ -223,7 +223,7 @@ Print Assumptions C18_source_iterators_are_the_modelled_ones.
    inner iterator's items and stop their own loop; that the inner one stops is its own theorem.) *)
 From Bio.gen Require ImpGen.
 From Bio.Model Require GoSem.
-From Bio.Proofs Require ImpProofs ImpProofsI ImpProofsJ ImpProofsK ImpProofsL ImpProofsQ ImpProofsR ImpProofsU ImpProofsW.
+From Bio.Proofs Require ImpProofs ImpProofsI ImpProofsJ ImpProofsK ImpProofsL ImpProofsQ ImpProofsP ImpProofsR ImpProofsU ImpProofsW ImpProofsY.
 
 Theorem C18_canonical_stop_is_source : forall p s k, ImpProofs.all_bytes s ->
   ImpGen.imp_sequtil_CanonicalSubsequences_stop p s k
@@ -296,6 +296,16 @@ Theorem C18_pre_post_order_stop_is_source : forall p fuel t, (2 * Newick.size t 
      = GoSem.Ret (ImpProofsU.take_stop p (map ImpProofsI.nd (NewickSpec.postorder t))).
 Proof. exact ImpProofsW.pre_post_order_stop_src. Qed.
 Print Assumptions C18_pre_post_order_stop_is_source.
+
+(* trie ForEach (a push iterator: the callback is a parameter): stopped after p reports it has
+   reported exactly what the model's for_each_until p reports (C18_for_each_stop: the first p of
+   the full run). *)
+Theorem C18_for_each_stop_is_source : forall p fuel h x r,
+  ImpProofsP.models h x -> TrieSpec.wf (ImpProofsP.erase x) ->
+  Trie.for_each_until p (ImpProofsP.erase x) = Ok r -> (2 * Trie.size (ImpProofsP.erase x) < fuel)%nat ->
+  ImpGen.imp_trie_Trie_ForEach_stop p fuel h (ImpProofsP.addr x) = GoSem.Ret (h, r).
+Proof. exact ImpProofsY.imp_ForEach_stop_ok. Qed.
+Print Assumptions C18_for_each_stop_is_source.
 
 Example C18_source_stop_example :
   ImpGen.imp_sequtil_CanonicalSubsequences_stop 2 (bs "ACGTT") 2 = GoSem.Ret [bs "AC"; bs "CG"]
